@@ -182,6 +182,7 @@ package routing
 //@ func storageRouting(inflows, laterals, rainfall, evap, s, prevInflow, prevOutflow, bias, k, x, area, deadStorage, deltaT, outflows, storages) returns (rS, rIn, rOut)
 //@   kernel
 //@   states s, prevInflow, prevOutflow
+//@   approx qi
 //@   noalias
 //@   safety C11
 //@   panics allowed
